@@ -85,6 +85,10 @@ Theorem C15_peel_all : forall b,
   (b < 2 ^ 52 -> rest = 0).
 Proof. exact peel_all_ok. Qed.
 
+(* the masks: ALL = the 52 card bits, OVERFLOW = the 12 bits above them *)
+Theorem C15_masks : BC_BLANK = 0 /\ BC_ALL = 2 ^ 52 - 1 /\ BC_OVERFLOW = 2 ^ 64 - 2 ^ 52.
+Proof. exact masks_ok. Qed.
+
 (* the named rank groups ACES .. DEUCES are exactly the four cards of their rank, pairwise disjoint, and together ALL *)
 Theorem C15_rank_groups :
   (forall r, r < 13 ->
@@ -118,3 +122,4 @@ Print Assumptions C15_valid.
 Print Assumptions C15_peel.
 Print Assumptions C15_peel_all.
 Print Assumptions C15_rank_groups.
+Print Assumptions C15_masks.
